@@ -517,9 +517,10 @@ class FJParser(sly.Parser):
         error_occurred = True
 
         if token is None:
+            # the input ended in the middle of a statement: there is no token (and no line) to point at
             error_string = (
-                f'Syntax Error in {get_position(self.line_position(None))}. '
-                f'Maybe missing }} or {{ before this line?'
+                f'Syntax Error in file {curr_file} (unexpected end of file). '
+                f'Maybe missing }} or {{ before the end of the file?'
             )
         else:
             error_string = f'Syntax Error in {get_position(token.lineno)}, token=("{token.type}", {token.value})'
